@@ -46,6 +46,9 @@ where
     state: Mutex<State>,
     pub(crate) reducers: Mutex<Vec<Box<dyn Reducer<State, Action> + Send + Sync>>>,
     pub(crate) subscribers: Arc<Mutex<Vec<Arc<dyn Subscriber<State, Action> + Send + Sync>>>>,
+    /// set, under the `subscribers` lock, when the reducer loop has ended and released its
+    /// subscribers for good
+    subscribers_released: std::sync::atomic::AtomicBool,
     pub(crate) dispatch_tx: Mutex<Option<SenderChannel<Action>>>,
     middlewares: Mutex<Vec<Arc<dyn Middleware<State, Action> + Send + Sync>>>,
     pub(crate) metrics: Arc<CountMetrics>,
@@ -129,6 +132,7 @@ where
             state: Mutex::new(state),
             reducers: Mutex::new(reducers),
             subscribers: Arc::new(Mutex::new(Vec::default())),
+            subscribers_released: std::sync::atomic::AtomicBool::new(false),
             middlewares: Mutex::new(middlewares),
             dispatch_tx: Mutex::new(Some(tx)),
             metrics,
@@ -230,7 +234,19 @@ where
         subscriber: Arc<dyn Subscriber<State, Action> + Send + Sync>,
     ) -> Box<dyn Subscription> {
         // append a subscriber
-        self.subscribers.lock().unwrap().push(subscriber.clone());
+        let released = {
+            let mut subscribers = self.subscribers.lock().unwrap();
+            let released = self.subscribers_released.load(std::sync::atomic::Ordering::Acquire);
+            if !released {
+                subscribers.push(subscriber.clone());
+            }
+            released
+        };
+        if released {
+            // the reducer loop has ended: nobody would ever notify or release this subscriber
+            // (a state iterator created now would wait forever), so release it right away
+            subscriber.on_unsubscribe();
+        }
 
         // disposer for the subscriber
         let subscribers = self.subscribers.clone();
@@ -271,6 +287,7 @@ where
         eprintln!("store: clear_subscribers");
         match self.subscribers.lock() {
             Ok(mut subscribers) => {
+                self.subscribers_released.store(true, std::sync::atomic::Ordering::Release);
                 for subscriber in subscribers.iter() {
                     subscriber.on_unsubscribe();
                 }
@@ -279,6 +296,7 @@ where
             Err(mut e) => {
                 #[cfg(dev)]
                 eprintln!("store: Error while locking subscribers: {:?}", e);
+                self.subscribers_released.store(true, std::sync::atomic::Ordering::Release);
                 for subscriber in e.get_ref().iter() {
                     subscriber.on_unsubscribe();
                 }
